@@ -107,7 +107,7 @@ def props(rep, d, tier, seed):
     rep.add_model("props-model", r)
     # same actions from richer starting lists (built by fixed 4-step prefixes)
     render(os.path.join(core.SPEC, "MC_PropsRich.cfg.in"), os.path.join(d, "MC_PropsRich.cfg"),
-           MAXLEN=maxlen - 1)
+           MAXLEN=2)
     r2 = core.tlc("MC_Props", "MC_PropsRich.cfg", d, workers=1, env=dict(GEN_OUT=gen), heap="6g",
                   tag="props-rich")
     rep.add_model("props-model(rich starting lists)", r2)
